@@ -1,31 +1,30 @@
-import CollectionsC.Proofs.HashTable
-import CollectionsC.Proofs.HashTableDerived
-import CollectionsC.Proofs.HashSet
+import CollectionsC.Proofs.HashTableNamed
+import CollectionsC.Proofs.HashSetLedger
 import CollectionsC.Properties.C02
 /-! # C16 (hash part) — rejected operations are inert
 
 An absent key (the NULL key included) is reported with `CC_ERR_KEY_NOT_FOUND` and the *whole
-physical state* — buckets, chains, cached hashes, size, capacity, threshold — and the ledger are
-unchanged.  For every hash function and every key. -/
+physical state* — buckets, chains, cached hashes, size, capacity, threshold, allocator triple — and
+the ledger are unchanged; likewise an iterator `remove` with no yielded entry at hand and `next` at the
+end.  For every hash function and every key; **no hypothesis on the ledger** (a rejected call
+releases nothing).  The two allocation-related statuses are not in this file's range:
+`CC_ERR_ALLOC` and `CC_ERR_MAX_CAPACITY` are reported by the resize loop of `add`, which may already
+have installed a larger bucket array — the map is unchanged, the physical state need not be; the
+theorem for them is `C08Hash.add_atomic` (cited below as `alloc_failures_keep_the_map`). -/
 namespace CC.Properties.C16Hash
 open CC CC.HT CC.Spec
 open CC.Spec.Map (Op Out)
 
 /-- `cc_hashtable_remove` of an absent key -/
-theorem remove_absent_inert (c : HCfg) (t : HashTable) (k : Key) (m : Mem) (h : t.Inv c) (hl : 0 < m.live)
+theorem remove_absent_inert (c : HCfg) (t : HashTable) (k : Key) (m : Mem) (h : t.Inv c)
     (habs : Map.lookup t.abs k = none) :
-    t.remove c k m = (.errKeyNotFound, none, t, m) := by
-  obtain ⟨_, _, p3, p4, p5, _⟩ := HashTable.remove_spec c t k m h hl
-  rw [habs] at p3 p4
-  simp only [Option.isSome_none, Bool.false_eq_true, if_false] at p4
-  obtain ⟨q1, q2⟩ := p5 (by rw [p4]; simp)
-  have : t.remove c k m = ((t.remove c k m).1, (t.remove c k m).2.1, (t.remove c k m).2.2.1, (t.remove c k m).2.2.2) := rfl
-  rw [this, p3, p4, q1, q2]
+    t.remove c k m = (.errKeyNotFound, none, t, m) := HashTable.remove_inert c t k m h habs
 
 /-- conversely a present key is never rejected -/
-theorem remove_present_ok (c : HCfg) (t : HashTable) (k : Key) (v : Nat) (m : Mem) (h : t.Inv c) (hl : 0 < m.live)
-    (hp : Map.lookup t.abs k = some v) : (t.remove c k m).1 = .ok ∧ (t.remove c k m).2.1 = some v := by
-  obtain ⟨_, _, p3, p4, _⟩ := HashTable.remove_spec c t k m h hl
+theorem remove_present_ok (c : HCfg) (t : HashTable) (k : Key) (v : Nat) (m : Mem) (h : t.Inv c)
+    (hl : 0 < liveOf m t.triple) (hp : Map.lookup t.abs k = some v) :
+    (t.remove c k m).1 = .ok ∧ (t.remove c k m).2.1 = some v := by
+  obtain ⟨_, _, p3, p4, _⟩ := HashTable.remove_spec c t k m h (fun _ => hl)
   rw [hp] at p3 p4
   exact ⟨by simpa using p4, p3⟩
 
@@ -41,28 +40,12 @@ theorem get_absent (c : HCfg) (t : HashTable) (k : Key) (m : Mem) (h : t.Inv c)
 /-- `get_keys`/`get_values` on an empty table are rejected (`CC_ERR_INVALID_CAPACITY`) before any
 allocation -/
 theorem enumeration_empty_inert (c : HCfg) (t : HashTable) (m : Mem) (h : t.Inv c) (h0 : t.size = 0) :
-    t.getKeys c m = (.errInvalidCapacity, none, m) ∧ t.getValues c m = (.errInvalidCapacity, none, m) := by
-  have hw := HashTable.walk_eq t h.2.1
-  have hfl : t.buckets.flatten.length = 0 := by rw [← h.2.2.1]; exact h0
-  constructor
-  · exact (HashTable.collect_spec c t _ m h (by rw [hw, List.length_map]; omega) (by rw [h0]; decide)).1 h0
-  · exact (HashTable.collect_spec c t _ m h (by rw [hw, List.length_map]; omega) (by rw [h0]; decide)).1 h0
-
-/-- `cc_hashset_remove` of an absent element -/
-theorem set_remove_absent_inert (c : HCfg) (s : HashSet) (e : Key) (m : Mem) (h : s.Inv c) (hl : 0 < m.live)
-    (habs : s.abs.contains e = false) :
-    (s.remove c e m).1 = .errKeyNotFound ∧ (s.remove c e m).2.2.1 = s ∧ (s.remove c e m).2.2.2 = m := by
-  obtain ⟨_, _, r3, r4, _⟩ := HashSet.remove_spec c s e m h hl
-  rw [habs] at r3
-  simp only [Bool.false_eq_true, if_false] at r3
-  exact ⟨r3, r4 (by rw [r3]; simp)⟩
+    t.getKeys c m = (.errInvalidCapacity, none, m) ∧ t.getValues c m = (.errInvalidCapacity, none, m) :=
+  C02.enumeration_empty c t m h h0
 
 /-- **error_is_inert**: a call of the table API whose status is an error other than the two
-allocation-related ones (`CC_ERR_ALLOC`, and `CC_ERR_MAX_CAPACITY`, which like it is reported by the
-resize loop and is covered by `C08Hash.add_atomic`: the map is unchanged but the bucket array may have
-grown) leaves the **whole physical state** — bucket array, chains, cached hashes, size, capacity,
-threshold — and the ledger unchanged.  For the hash table that status is `CC_ERR_KEY_NOT_FOUND`. -/
-theorem error_is_inert (c : HCfg) (t : HashTable) (op : Op) (m : Mem) (h : t.Inv c) (hl : 0 < m.live)
+allocation-related ones leaves the whole physical state and the ledger unchanged -/
+theorem error_is_inert (c : HCfg) (t : HashTable) (op : Op) (m : Mem) (h : t.Inv c)
     (st : Stat) (hst : (t.step c op m).1.st = some st)
     (hne : st ≠ .ok ∧ st ≠ .errAlloc ∧ st ≠ .errMaxCapacity) :
     (t.step c op m).2.1 = t ∧ (t.step c op m).2.2 = m := by
@@ -78,11 +61,39 @@ theorem error_is_inert (c : HCfg) (t : HashTable) (op : Op) (m : Mem) (h : t.Inv
   | containsKey k => exact ⟨rfl, (HashTable.containsKey_refines c t k m h).2⟩
   | remove k =>
     simp only [HashTable.step, Option.some.injEq] at hst ⊢
-    exact (HashTable.remove_spec c t k m h hl).2.2.2.2.1 (by rw [hst]; exact hne.1)
+    cases hlk : Map.lookup t.abs k with
+    | none => rw [HashTable.remove_inert c t k m h hlk]; exact ⟨rfl, rfl⟩
+    | some v =>
+      -- a present key: `remove` reports OK whenever the entry's block is owned; with an empty ledger
+      -- the model faults instead — either way the status is not a rejection
+      exfalso
+      have hst' : (t.remove c k m).1 = .ok := by
+        unfold HashTable.remove
+        have hc : chainRemove (t.bucket (t.index (keyHash c k))) k ≠ none := by
+          intro hn
+          have := HashTable.remove_inert
+          have hh := (chainRemove_find (t.bucket (t.index (keyHash c k))) k)
+          rw [hn] at hh
+          have hf := HashTable.find_flat c t h.1 h.2.1 h.2.2.2.1 k
+          rw [HashTable.abs_eq, HashTable.lookup_map_pair, hf] at hlk
+          rw [← hh] at hlk; cases hlk
+        simp only
+        cases hr : chainRemove (t.bucket (t.index (keyHash c k))) k with
+        | none => exact absurd hr hc
+        | some r => rfl
+      rw [hst'] at hst; exact hne.1 hst.symm
   | removeAll => simp [HashTable.step] at hst
 
-/-- absent key ⇒ not-found status, for `get` and `remove`, NULL key included -/
-theorem absent_key_rejected (c : HCfg) (t : HashTable) (k : Key) (m : Mem) (h : t.Inv c) (hl : 0 < m.live)
+/-- the two statuses excluded above keep the map (but possibly not the bucket array) -/
+theorem alloc_failures_keep_the_map (c : HCfg) (t : HashTable) (k : Key) (v : Nat) (m : Mem) (h : t.Inv c)
+    (hfail : (t.add c k v m).1 ≠ .ok) :
+    (t.add c k v m).2.1.abs.Perm t.abs ∧ (t.add c k v m).2.1.size = t.size ∧ (t.add c k v m).2.1.Inv c ∧
+    liveOf (t.add c k v m).2.2 t.triple = liveOf m t.triple := by
+  obtain ⟨a1, _, a3, _⟩ := HashTable.add_spec c t k v m h
+  exact ⟨(a3 hfail).2.1, (a3 hfail).2.2.1, a1, (a3 hfail).2.2.2⟩
+
+/-- absent key ⇒ not-found status, for `get`, `remove` and `contains_key`, NULL key included -/
+theorem absent_key_rejected (c : HCfg) (t : HashTable) (k : Key) (m : Mem) (h : t.Inv c)
     (habs : Map.contains t.abs k = false) :
     (t.get c k m).1 = .errKeyNotFound ∧ (t.remove c k m).1 = .errKeyNotFound ∧ (t.containsKey c k m).1 = false := by
   have hl0 : Map.lookup t.abs k = none := by
@@ -92,7 +103,7 @@ theorem absent_key_rejected (c : HCfg) (t : HashTable) (k : Key) (m : Mem) (h : 
     | some v => rw [hh] at habs; simp at habs
   refine ⟨?_, ?_, ?_⟩
   · rw [(HashTable.get_refines c t k m h).2.1, hl0]; rfl
-  · rw [(HashTable.remove_spec c t k m h hl).2.2.2.1, hl0]; rfl
+  · rw [HashTable.remove_inert c t k m h hl0]
   · rw [(HashTable.containsKey_refines c t k m h).1, habs]
 
 /-- END is inert: once nothing is pending, `iter_next` changes neither the cursor nor anything else,
@@ -101,27 +112,63 @@ theorem iter_end_inert (c : HCfg) (t : HashTable) (it : HIter) (m : Mem) (h : t.
     (hit : HashTable.ItInv t it []) : t.iterNext it m = (.iterEnd, none, it, m) :=
   (HashTable.iterNext_spec c t it m [] h hit).1 rfl
 
+/-- `iter_remove` with no yielded entry at hand — before the first `next`, or a second time for the
+same entry — is rejected with `CC_ERR_KEY_NOT_FOUND` and changes nothing (table, cursor, ledger) -/
+theorem iter_remove_rejected_inert (c : HCfg) (t : HashTable) (it : HIter) (m : Mem) (hp : it.prev = none) :
+    t.iterRemove c it m = (.errKeyNotFound, none, t, it, m) := HashTable.iterRemove_no_prev c t it m hp
+
+/-- … and that is the state right after `iter_init` and right after a successful `iter_remove` -/
+theorem iter_remove_twice (c : HCfg) (t : HashTable) (it : HIter) (m : Mem) (k : Key) (hp : it.prev = some k)
+    (hok : (t.remove c k m).1 = .ok) :
+    (t.iterInit m).1.prev = none ∧ (t.iterRemove c it m).2.2.2.1.prev = none ∧
+    (t.iterRemove c it m).2.2.1.iterRemove c (t.iterRemove c it m).2.2.2.1 (t.iterRemove c it m).2.2.2.2 =
+      (.errKeyNotFound, none, (t.iterRemove c it m).2.2.1, (t.iterRemove c it m).2.2.2.1, (t.iterRemove c it m).2.2.2.2) := by
+  have h2 : (t.iterRemove c it m).2.2.2.1.prev = none := by
+    unfold HashTable.iterRemove; rw [hp]; simp [hok]
+  refine ⟨?_, h2, HashTable.iterRemove_no_prev c _ _ _ h2⟩
+  unfold HashTable.iterInit; simp only; split <;> rfl
+
+/-- every status any iterator call of any program reports other than OK leaves everything unchanged -/
+theorem iter_error_is_inert (c : HCfg) (t : HashTable) (it : HIter) (op : HashTable.IterOp) (m : Mem)
+    (cur : HashTable.Cursor) (h : t.Inv c) (hr : HashTable.CurRel t it cur) (hl : t.size + 2 ≤ liveOf m t.triple)
+    (hne : (HashTable.iterStep c t it op m).1.1 ≠ .ok) : (HashTable.iterStep c t it op m).2 = (t, it, m) :=
+  (HashTable.iterStep_refines c t it op m cur h hr hl).2.2.2.2.2.2.2 hne
+
 /-- set API: an error other than the allocation-related ones leaves the set physically unchanged -/
-theorem set_error_is_inert (c : HCfg) (s : HashSet) (op : Set.Op) (m : Mem) (h : s.Inv c) (hl : 0 < m.live)
+theorem set_error_is_inert (c : HCfg) (s : HashSet) (op : Set.Op) (m : Mem) (h : s.Inv c)
     (st : Stat) (hst : (s.step c op m).1.st = some st)
     (hne : st ≠ .ok ∧ st ≠ .errAlloc ∧ st ≠ .errMaxCapacity) :
     (s.step c op m).2.1 = s ∧ (s.step c op m).2.2 = m := by
+  have ht := error_is_inert c s.table
   cases op with
   | add e =>
-    simp only [HashSet.step, Option.some.injEq] at hst
-    obtain ⟨_, _, a3, _⟩ := HashSet.add_spec c s e m h
-    rw [← hst] at hne
-    rcases (a3 hne.1).1 with h1 | h1
-    · exact absurd h1 hne.2.1
-    · exact absurd h1 hne.2.2
+    have := ht (.add e HashSet.dummy) m h.1 st (by simpa [HashSet.step, HashSet.add, HashTable.step] using hst) hne
+    simp only [HashTable.step] at this
+    simp only [HashSet.step, HashSet.add]
+    exact ⟨by rw [this.1], this.2⟩
   | contains e => exact ⟨rfl, (HashSet.contains_refines c s e m h).2⟩
   | remove e =>
-    simp only [HashSet.step, Option.some.injEq] at hst ⊢
-    exact (HashSet.remove_spec c s e m h hl).2.2.2.1 (by rw [hst]; exact hne.1)
+    have := ht (.remove e) m h.1 st (by simpa [HashSet.step, HashSet.remove, HashTable.step] using hst) hne
+    simp only [HashTable.step] at this
+    simp only [HashSet.step, HashSet.remove]
+    exact ⟨by rw [this.1], this.2⟩
   | removeAll => simp [HashSet.step] at hst
 
-/-- non-vacuity: removing the absent NULL key from a populated constant-hash table -/
-example : (HashTable.mk 2 2 2 [[], [⟨some 1, 11, 7⟩, ⟨some 2, 12, 7⟩]]).remove ⟨fun _ => 7, fun c => c, fun c => c * 2⟩ none { live := 4 }
-    = (.errKeyNotFound, none, HashTable.mk 2 2 2 [[], [⟨some 1, 11, 7⟩, ⟨some 2, 12, 7⟩]], { live := 4 }) := by decide
+/-- `cc_hashset_remove` of an absent element -/
+theorem set_remove_absent_inert (c : HCfg) (s : HashSet) (e : Key) (m : Mem) (h : s.Inv c)
+    (habs : s.abs.contains e = false) :
+    (s.remove c e m).1 = .errKeyNotFound ∧ (s.remove c e m).2.2.1 = s ∧ (s.remove c e m).2.2.2 = m := by
+  obtain ⟨_, _, r3, r4, _⟩ := HashSet.remove_spec c s e m h (fun hc => by rw [habs] at hc; cases hc)
+  rw [habs] at r3
+  simp only [Bool.false_eq_true, if_false] at r3
+  exact ⟨r3, r4 (by rw [r3]; simp)⟩
+
+/-- non-vacuity: removing the absent NULL key from a populated constant-hash table; a rejected
+iterator removal on it -/
+def exTable : HashTable := HashTable.mk 2 2 2 [[], [⟨some 1, 11, 7⟩, ⟨some 2, 12, 7⟩]] .conf
+def exCfg : HCfg := ⟨fun _ => 7, fun c => c, fun c => c * 2⟩
+example : exTable.Inv exCfg := by decide
+example : exTable.remove exCfg none { live := 4 } = (.errKeyNotFound, none, exTable, { live := 4 }) := by decide
+example : exTable.iterRemove exCfg (exTable.iterInit {}).1 {} = (.errKeyNotFound, none, exTable, (exTable.iterInit {}).1, {}) := by decide
 
 end CC.Properties.C16Hash
